@@ -214,7 +214,7 @@ def main(argv=None):
     if not fns:
         print('UNDECIDED property=%s reason=no function under contract for this property' % prop)
         return 2
-    timeout_ms = 10000 if tier == 'quick' else 60000
+    timeout_ms = 20000 if tier == 'quick' else 60000
     jobs = [(f, prop, timeout_ms, seed, True) for f in fns]
     ctx = mp.get_context('fork')
     with ctx.Pool(min(a.jobs, len(jobs))) as pool:
